@@ -181,21 +181,31 @@ def goto_cc(sources, out, defines=(), includes=(), timeout=300):
 
 
 def cbmc(gb, function, unwind=None, unwindset=(), flags=(), timeout=600, std=True,
-         replace_calls=(), trace=True, mem_gb=24, object_bits=None):
-    """Run cbmc on a goto binary. Returns CbmcResult. Timeout/oom/solver error = inconclusive."""
+         replace_calls=(), trace=True, mem_gb=24, object_bits=None, instrument=()):
+    """Run cbmc on a goto binary. Returns CbmcResult. Timeout/oom/solver error = inconclusive.
+    instrument: extra goto-instrument arguments applied (after --replace-calls) in a separate pass, e.g.
+    ("--unwindset", "tokenize.2:1", "--partial-loops") to cut one loop to a single iteration (inductive step)."""
     r = CbmcResult()
     work = gb
-    if replace_calls:
+    if replace_calls or instrument:
         import threading
         work = "%s.%s.%x.rc.gb" % (gb, re.sub(r"\W", "_", function), threading.get_ident() & 0xffffff)
-        cmd = ["goto-instrument"]
-        for rc_ in replace_calls:
-            cmd += ["--replace-calls", rc_]
-        cmd += [gb, work]
-        rc, o, e, s = run(cmd, timeout=300)
-        if rc != 0:
-            r.detail = "goto-instrument failed: " + (o + e)[-2000:]
-            return r
+        src = gb
+        if replace_calls:
+            cmd = ["goto-instrument"]
+            for rc_ in replace_calls:
+                cmd += ["--replace-calls", rc_]
+            cmd += [src, work]
+            rc, o, e, s = run(cmd, timeout=300)
+            if rc != 0:
+                r.detail = "goto-instrument failed: " + (o + e)[-2000:]
+                return r
+            src = work
+        if instrument:
+            rc, o, e, s = run(["goto-instrument"] + list(instrument) + [src, work], timeout=300)
+            if rc != 0:
+                r.detail = "goto-instrument failed: " + (o + e)[-2000:]
+                return r
     cmd = ["cbmc", work, "--function", function, "--json-ui"]
     if std:
         cmd += CBMC_STD
@@ -232,7 +242,7 @@ def cbmc(gb, function, unwind=None, unwindset=(), flags=(), timeout=600, std=Tru
             cprover_status = m["cProverStatus"]
         if m.get("messageType") == "ERROR":
             errors.append(m.get("messageText", ""))
-    if replace_calls:
+    if replace_calls or instrument:
         try:
             os.remove(work)
         except OSError:
